@@ -451,18 +451,19 @@ namespace OV.C01
 
 /-! ## Statement helpers -/
 
-theorem blockOutputs_fresh (L : Locals) : ∀ (vs : List Name) (sofar : List Node) {os : List Name}
-    {ns : List Node} {s s' : St}, blockOutputs L vs sofar s = .ok ((os, ns), s') → NodesFresh s s' ns := by
+theorem blockOutputs_fresh (L : Locals) : ∀ (vs : List Name) (sofar : List Node) (outs : List Name)
+    {os : List Name} {ns : List Node} {s s' : St},
+    blockOutputs L vs sofar outs s = .ok ((os, ns), s') → NodesFresh s s' ns := by
   intro vs
   induction vs with
   | nil =>
-    intro sofar os ns s s' h
+    intro sofar outs os ns s s' h
     unfold blockOutputs at h
     obtain ⟨e1, e2⟩ := pure_ok h
     cases e1; subst e2
     exact NodesFresh.nil _
   | cons pv rest ih =>
-    intro sofar os ns s s' h
+    intro sofar outs os ns s s' h
     unfold blockOutputs at h
     cases hc : currentScopeFind L pv with
     | some b =>
@@ -470,15 +471,15 @@ theorem blockOutputs_fresh (L : Locals) : ∀ (vs : List Name) (sofar : List Nod
       mbind h with p s1 h1
       obtain ⟨o, ns1⟩ := p
       try dsimp only at h
-      by_cases hin : (topDefs (sofar ++ ns1)).contains o = true
-      · simp only [hin, if_true] at h
+      by_cases hin : ((topDefs (sofar ++ ns1)).contains o && !outs.contains o) = true
+      · rw [if_pos hin] at h
         mbind h with p s2 h2
         obtain ⟨os', ns2⟩ := p
         try dsimp only at h
         obtain ⟨e1, e2⟩ := pure_ok h
         cases e1; subst e2
-        exact (toOnnxVar_fresh h1).append (ih _ h2)
-      · simp only [hin] at h
+        exact (toOnnxVar_fresh h1).append (ih _ _ h2)
+      · rw [if_neg hin] at h
         mbind h with p s2 h2
         obtain ⟨o', nc⟩ := p
         try dsimp only at h
@@ -487,7 +488,7 @@ theorem blockOutputs_fresh (L : Locals) : ∀ (vs : List Name) (sofar : List Nod
         try dsimp only at h
         obtain ⟨e1, e2⟩ := pure_ok h
         cases e1; subst e2
-        exact (toOnnxVar_fresh h1).append ((emitCopy_fresh h2).append (ih _ h3))
+        exact (toOnnxVar_fresh h1).append ((emitCopy_fresh h2).append (ih _ _ h3))
     | none =>
       simp only [hc] at h
       cases hl : lookup L pv with
@@ -505,33 +506,34 @@ theorem blockOutputs_fresh (L : Locals) : ∀ (vs : List Name) (sofar : List Nod
         try dsimp only at h
         obtain ⟨e1, e2⟩ := pure_ok h
         cases e1; subst e2
-        exact (toOnnxVar_fresh h1).append ((emitCopy_fresh h2).append (ih _ h3))
+        exact (toOnnxVar_fresh h1).append ((emitCopy_fresh h2).append (ih _ _ h3))
 
-theorem loopOutputs_fresh (L : Locals) : ∀ (vs : List Name) (sofar : List Node) {os : List Name}
-    {ns : List Node} {s s' : St}, loopOutputs L vs sofar s = .ok ((os, ns), s') → NodesFresh s s' ns := by
+theorem loopOutputs_fresh (L : Locals) : ∀ (vs : List Name) (sofar : List Node) (outs : List Name)
+    {os : List Name} {ns : List Node} {s s' : St},
+    loopOutputs L vs sofar outs s = .ok ((os, ns), s') → NodesFresh s s' ns := by
   intro vs
   induction vs with
   | nil =>
-    intro sofar os ns s s' h
+    intro sofar outs os ns s s' h
     unfold loopOutputs at h
     obtain ⟨e1, e2⟩ := pure_ok h
     cases e1; subst e2
     exact NodesFresh.nil _
   | cons pv rest ih =>
-    intro sofar os ns s s' h
+    intro sofar outs os ns s s' h
     unfold loopOutputs at h
     mbind h with p s1 h1
     obtain ⟨o, ns1⟩ := p
     try dsimp only at h
-    by_cases hin : (topDefs (sofar ++ ns1)).contains o = true
-    · simp only [hin, if_true] at h
+    by_cases hin : ((topDefs (sofar ++ ns1)).contains o && !outs.contains o) = true
+    · rw [if_pos hin] at h
       mbind h with p s2 h2
       obtain ⟨os', ns2⟩ := p
       try dsimp only at h
       obtain ⟨e1, e2⟩ := pure_ok h
       cases e1; subst e2
-      exact (pyVar_fresh h1).append (ih _ h2)
-    · simp only [hin] at h
+      exact (pyVar_fresh h1).append (ih _ _ h2)
+    · rw [if_neg hin] at h
       mbind h with p s2 h2
       obtain ⟨o', nc⟩ := p
       try dsimp only at h
@@ -540,7 +542,7 @@ theorem loopOutputs_fresh (L : Locals) : ∀ (vs : List Name) (sofar : List Node
       try dsimp only at h
       obtain ⟨e1, e2⟩ := pure_ok h
       cases e1; subst e2
-      exact (pyVar_fresh h1).append ((emitCopy_fresh h2).append (ih _ h3))
+      exact (pyVar_fresh h1).append ((emitCopy_fresh h2).append (ih _ _ h3))
 
 theorem loopInits_fresh (L : Locals) : ∀ (vs : List Name) {os : List Name}
     {ns : List Node} {s s' : St}, loopInits L vs s = .ok ((os, ns), s') → NodesFresh s s' ns := by
@@ -588,35 +590,45 @@ theorem loopParams_fresh : ∀ (vs : List Name) (L : Locals) {L' : Locals} {ps :
     obtain ⟨m2, f2⟩ := ih _ h2
     exact ⟨m1.trans m2, FreshL.append m1 f1 m2 f2⟩
 
-theorem convPar_fresh : ∀ (xs : List Name) (es : List Expr) (L : Locals) {L' : Locals}
-    {ns : List Node} {s s' : St}, convPar L xs es s = .ok ((L', ns), s') → NodesFresh s s' ns := by
+theorem convParExprs_fresh (L : Locals) : ∀ (xs : List Name) (es : List Expr) {ts : List Name}
+    {ns : List Node} {s s' : St}, convParExprs L xs es s = .ok ((ts, ns), s') → NodesFresh s s' ns := by
   intro xs
   induction xs with
   | nil =>
-    intro es L L' ns s s' h
-    unfold convPar at h
+    intro es ts ns s s' h
+    unfold convParExprs at h
     obtain ⟨e1, e2⟩ := pure_ok h
     cases e1; subst e2
     exact NodesFresh.nil _
   | cons x xs ih =>
-    intro es L L' ns s s' h
+    intro es ts ns s s' h
     cases es with
     | nil =>
-      unfold convPar at h
+      unfold convParExprs at h
       obtain ⟨e1, e2⟩ := pure_ok h
       cases e1; subst e2
       exact NodesFresh.nil _
     | cons e es =>
-      unfold convPar at h
+      unfold convParExprs at h
       mbind h with p s1 h1
       obtain ⟨t, ns1⟩ := p
       try dsimp only at h
       mbind h with p s2 h2
-      obtain ⟨L2, ns2⟩ := p
+      obtain ⟨ts', ns2⟩ := p
       try dsimp only at h
       obtain ⟨e1, e2⟩ := pure_ok h
       cases e1; subst e2
-      exact (convExpr_fresh _ e _ h1).append (ih _ _ h2)
+      exact (convExpr_fresh _ e _ h1).append (ih _ h2)
+
+theorem convPar_fresh (xs : List Name) (es : List Expr) (L : Locals) {L' : Locals}
+    {ns : List Node} {s s' : St} (h : convPar L xs es s = .ok ((L', ns), s')) : NodesFresh s s' ns := by
+  unfold convPar at h
+  mbind h with p s1 h1
+  obtain ⟨ts, ns1⟩ := p
+  try dsimp only at h
+  obtain ⟨e1, e2⟩ := pure_ok h
+  cases e1; subst e2
+  exact convParExprs_fresh L xs es h1
 
 theorem loopEnter_fresh {L : Locals} {v : Name} {state : List Name} {L1 : Locals} {iv : Name}
     {ps : List Name} {s s' : St} (h : loopEnter L v state s = .ok ((L1, iv, ps), s')) :
@@ -658,7 +670,7 @@ theorem loopFinish_fresh {L L2 : Locals} {state : List Name} {bound cond : Optio
     obtain ⟨e1, e2⟩ := pure_ok h
     cases e1; subst e2
     obtain ⟨m1, f1⟩ := genUnique_fresh h1
-    obtain ⟨m2, f2⟩ := loopOutputs_fresh _ _ _ h2
+    obtain ⟨m2, f2⟩ := loopOutputs_fresh _ _ _ _ h2
     obtain ⟨m3, f3⟩ := loopInits_fresh _ _ h3
     obtain ⟨m4, f4, _⟩ := genUniques_fresh _ h4
     refine ⟨((m1.trans m2).trans m3).trans m4, [condOut] ++ (allDefsL ns3 ++ (allDefsL ns4 ++ outs)), ?_, ?_⟩
@@ -763,9 +775,9 @@ theorem convStmt_fresh (L : Locals) : ∀ (st : Stmt) (lo : VSet) {L' : Locals} 
           cases e1; subst e2
           obtain ⟨m1, f1⟩ := convExpr_fresh L c _ h1
           obtain ⟨m2, f2⟩ := convStmts_fresh _ t lo h2
-          obtain ⟨m3, f3⟩ := blockOutputs_fresh _ _ _ h3
+          obtain ⟨m3, f3⟩ := blockOutputs_fresh _ _ _ _ h3
           obtain ⟨m4, f4⟩ := convStmts_fresh _ e lo h4
-          obtain ⟨m5, f5⟩ := blockOutputs_fresh _ _ _ h5
+          obtain ⟨m5, f5⟩ := blockOutputs_fresh _ _ _ _ h5
           obtain ⟨m6, f6, _⟩ := genUniques_fresh _ h6
           refine ⟨m1.trans (m2.trans (m3.trans (m4.trans (m5.trans m6)))), ?_⟩
           have hall := FreshL.append m1 f1 (m2.trans (m3.trans (m4.trans (m5.trans m6))))
@@ -941,7 +953,7 @@ theorem convRetOne_fresh {L : Locals} {inputs : List Name} {e : Expr} {pref : Na
   obtain ⟨rv2, ns2⟩ := p
   try dsimp only at h
   have hf2 : NodesFresh s1 s2 ns2 := by
-    by_cases hi : returnsInput L inputs rv = true
+    by_cases hi : returnsInput inputs rv = true
     · rw [if_pos hi] at h2; exact emitCopy_fresh h2
     · rw [if_neg hi] at h2
       obtain ⟨e1, e2⟩ := pure_ok h2
